@@ -28,6 +28,7 @@ import DisjointImpls.Lemmas.ExpandInherent
 import DisjointImpls.Props.C17
 import DisjointImpls.Lemmas.ExpandItems
 import DisjointImpls.Lemmas.ExpandEmit
+import DisjointImpls.Lemmas.RevSubExact
 open DI
 
 def rToSx : R → Sx
@@ -202,8 +203,12 @@ def handle (cmd : String) (args : List Sx) : Sx :=
           -- hypotheses and conclusion of C10_bound_roundtrip / C10_nodup evaluated on this case
           let hyp := untouched σ bounded && untouched σ tr
           let concl := res.all (fun (x, y) => inst σ x == bounded && inst σ y == tr)
+          -- C10_bound_exact / C10_bound_count (no hypothesis): every output is a re-expression by the independent executable
+          -- specification `isReexpr_rx`, and there are exactly `reexprCount` of them
+          let exact := res.all (fun (x, y) => isReexpr_rx σ bounded x && isReexpr_rx σ tr y) &&
+            res.length == reexprCount_rx σ bounded * reexprCount_rx σ tr
           .list [.sym "yes", Subst.toSx σ,
-            .list (res.map (fun (x, y) => .list [x.toSx, y.toSx])), boolSx hyp, boolSx concl]
+            .list (res.map (fun (x, y) => .list [x.toSx, y.toSx])), boolSx hyp, boolSx concl, boolSx exact]
       | r => rToSx r
   | "tb", [p, q] =>
       .list [.sym "tb", b3ToSx (tbEq p q), b3ToSx (tbEq q p),
